@@ -373,9 +373,16 @@ def escaper(ctx, cfg, fs):
         ok = all({t for t, a in rows(V, v)} == {('raw',)} for v in CLASSES)
         ctx.ob('E.roff-escaper', 'escape:%s-verbatim' % V, ok, 'the %s rule appends exactly the byte itself for every byte class: %s' % (V, fmt(rows(V, 65))), where=b.where(), cfg=cfg)
     # E2: Spaces
-    ok = all({t for t, a in rows('Spaces', v)} == {(92, 32)} for v in (32, 10)) and all({t for t, a in rows('Spaces', v)} == {('raw',)} for v in CLASSES if v not in (32, 10))
+    ok = all({t for t, a in rows('Spaces', v)} == {(92, 32)} for v in (32, 10)) and all({t for t, a in rows('Spaces', v)} == {('raw',)} for v in CLASSES if v not in (32, 10, 92))
     ctx.ob('E.roff-escaper', 'escape:Spaces-replaces-space-and-newline', ok,
-           "the Spaces rule appends `\\ ` for ' ' and '\\n' (never the byte itself) and the byte for anything else: space %s, newline %s, other %s" % (fmt(rows('Spaces', 32)), fmt(rows('Spaces', 10)), fmt(rows('Spaces', 65))), where=b.where(), cfg=cfg)
+           "the Spaces rule appends `\\ ` for ' ' and '\\n' (never the byte itself) and the byte for ordinary bytes: space %s, newline %s, other %s" % (fmt(rows('Spaces', 32)), fmt(rows('Spaces', 10)), fmt(rows('Spaces', 65))), where=b.where(), cfg=cfg)
+    # E2b: the arguments of a request are user text too (section titles of group_help end up in `.SS <title>`): a backslash in them must
+    # not reach roff as the start of an escape.  Request arguments are read in copy mode, where `\\\\` collapses to one live backslash:
+    # only a constant escape that does not copy the byte (`\\e`, `\\(rs`) is neutral.
+    bs = rows('Spaces', 92)
+    ok = bool(bs) and all('raw' not in t and 'dyn' not in t and len(t) >= 2 and t[0] == 92 and t[1] != 92 for t, a in bs)
+    ctx.ob('E.roff-escaper', 'escape:Spaces-neutralises-backslash', ok,
+           "the Spaces rule (arguments of requests: `.SS <group title>`) never copies a backslash: %s" % fmt(bs), where=b.where(), cfg=cfg)
     for V in ('Special', 'SpecialNoNewline'):
         # E3: control characters at the start of a line are defused first
         ok = all(all(t[:2] == (92, 38) for t, a in rows(V, v, True)) and bool(rows(V, v, True)) for v in (46, 39))
